@@ -35,6 +35,8 @@ def run(ctx):
         progress(ctx, s)
         finaliser(ctx, crate, s, want)
     fill_helpers(ctx, crate)
+    from rules import c07_goup
+    c07_goup.run(ctx, crate)
     from rules.c15 import pack_rule
     pack_rule(ctx, crate)
     # not: returns to_bmoc; loop over entries advances by construction (for i in 1..len)
